@@ -5,8 +5,9 @@
    No proofs here. *)
 From BU Require Import Lib.Bytes Lib.PolyMod Gen.Xbloom.
 
-Definition w32 (x : N) : N := x mod 2^32.
-Definition w8 (x : N) : N := x mod 2^8.
+(* x mod 2^32 and x mod 2^8, computed by masking (BloomProofs.w32_mod / w8_mod: equal to the mod) *)
+Definition w32 (x : N) : N := N.land x 4294967295.
+Definition w8 (x : N) : N := N.land x 255.
 
 Definition mC1 : N := Z.to_N c_murmurC1.
 Definition mC2 : N := Z.to_N c_murmurC2.
